@@ -1,4 +1,5 @@
 import PlumpyModel.Props.C06
+import PlumpyModel.PM.Proof8
 /-!
 # C10 — ToContext is a barrier: the next step sees every awaited result
 
@@ -10,9 +11,13 @@ asyncio when `f` completes, run by a tick in ANY order).  `awaitableDone` is `_a
 
 The theorems are the barrier's mechanism, for every configuration: a completed item is stored under its key and removed
 from the awaiting set, the wait itself completes only when the set is empty, a failed item fails the wait, and a failed
-wait excepts the process without activating another step.  The history-level statement (at every activation of the
-next outline step all its predecessors' items are done and in the context, for every completion order and placement)
-is decided by the correspondence check and the Python monitor over all explored schedules; it is not yet a theorem.
+wait excepts the process without activating another step.  The barrier itself is a theorem over whole histories
+(`C10_barrier`): in every configuration reachable by any history of ticks, completions (in any order and placement),
+pause / play / kill / fail / cancel / call_soon events — everything except an external `resume()` on the workchain,
+which would bypass the barrier by design — the wait of the current WAITING state holds (or has parked) a result only
+when NOTHING is awaited any more; since the next outline step is activated only by a wait that holds a result
+(`Waiting.execute`), it starts only after every awaited item was processed by `_awaitable_done`.  That the processed
+results are all found in the context under their keys is decided by the correspondence check and the Python monitor.
 -/
 namespace PMF
 
@@ -77,6 +82,26 @@ theorem C10_failed_wait_excepts (c : Cfg) (fn wf : Nat) (e : Exc) (hl : terminal
     simp only [hs.1, hl, Bool.false_eq_true, if_false, hi]
     rw [(transitionTo_keep _ _).1]
     exact (setInterrupt_sameP c none).2.1
+
+
+/-- **the barrier, over whole histories**: for every program, every number of awaited futures and every history that
+contains no external `resume()`, if the process is WAITING on awaitables `aw` and its wait holds a result — i.e. the
+stepping task is about to (or can) activate the next step — or a result is parked behind an interruption, then `aw` is
+empty: every awaited item has been processed. -/
+theorem C10_barrier (P : Prog) (nf : Nat) (evs : List Ev) (hnr : ∀ e ∈ evs, ∀ v, e ≠ .resume v)
+    (fn wf : Nat) (wk : Option WF) (aw : List (Nat × Nat)) (hst : (run P (init nf) evs).st = .waiting fn wf wk aw)
+    (hres : (∃ v, (run P (init nf) evs).wfs[wf]? = some (.result v)) ∨ (∃ v, wk = some (.result v))) : aw = [] := by
+  have h := run_invB P (init nf) evs (invB_init nf) hnr fn wf wk aw hst
+  apply h.2
+  rcases hres with ⟨v, hv⟩ | ⟨v, hv⟩
+  · left; rw [hv]; rfl
+  · right; rw [hv]; rfl
+
+/-- the index of the waiting future of the current WAITING state is always valid (the wait can always be completed) -/
+theorem C10_wait_index_valid (P : Prog) (nf : Nat) (evs : List Ev) (hnr : ∀ e ∈ evs, ∀ v, e ≠ .resume v)
+    (fn wf : Nat) (wk : Option WF) (aw : List (Nat × Nat)) (hst : (run P (init nf) evs).st = .waiting fn wf wk aw) :
+    wf < (run P (init nf) evs).wfs.length :=
+  (run_invB P (init nf) evs (invB_init nf) hnr fn wf wk aw hst).1
 
 -- non-vacuity: two awaited futures completing in either order; the second step runs only after both callbacks ran
 section
